@@ -68,7 +68,7 @@ class Check(FormulaCheck):
             '(|x|<=700 for EXP/SINH/COSH; points within 1e-6 of a singularity excluded), as number, numeric text or logical; or one identity formula; '
             'or one PV(rate,periods,payment,future,type); or one RAND/RANDBETWEEN draw. non-trivial = compared with the reference / identity / residual; '
             'distinct = distinct (function, arguments).')
-    ASSUMPTIONS = ('results that overflow a double are not judged; band 1e-9 relative (absolute below 1)',
+    ASSUMPTIONS = ('results beyond 1.79e308 (overflow) are not judged; band 1e-9 relative (absolute below 1)',
                    'ACOT on non-positive arguments is judged only through COT(ACOT(x)) = x and |ACOT(x)| <= pi',
                    'outside the domain or for non-numeric text any error code is accepted, never a number',
                    'PV: (1+r)^n overflowing/underflowing a double is not judged; RANDBETWEEN with integer bounds a <= b')
@@ -135,7 +135,7 @@ class Check(FormulaCheck):
             self.expect('C16/%s:number-outside-domain' % fn, self.is_err(g), x=v, got=g)
             return
         ref = ref_fn(X)
-        if abs(ref) > m.mpf(10) ** 300:
+        if abs(ref) > m.mpf('1.79e308'):
             rec.count('skipped.overflow')
             return
         ok = self.expect('C16/%s:value%s' % (fn, '' if how == 'number' else ':' + how), close_mp(g, ref), x=v, got=g, expected=float(ref))
@@ -171,6 +171,17 @@ class Check(FormulaCheck):
                 for f in ('PV(0,10,v_t)', 'PV(v_t,10,1)', 'POWER(v_t,2)', 'POWER(2,v_t)', 'LOG(v_t,2)', 'ATAN2(v_t,1)', 'ATAN2(1,v_t)', 'RADIANS(v_t)', 'DEGREES(v_t)'):
                     g = self.ev(f, v_t=t)
                     self.expect('C16/%s:non-numeric-text-yields-a-number' % f.split('(')[0], self.is_err(g), formula=f, text=t, got=g)
+            if rnd.random() < 0.1:
+                # results that are finite but huge (between 1e300 and the largest double) are ordinary results
+                for f, x, ref in (('EXP(v_x)', rnd.uniform(700, 709.78), None), ('COSH(v_x)', rnd.uniform(700, 710.47), None), ('SINH(v_x)', -rnd.uniform(700, 710.47), None),
+                                  ('ABS(v_x)', -rnd.uniform(1e300, 1.79e308), None), ('POWER(10,v_x)', rnd.uniform(300, 308.25), None), ('SQRT(v_x)', rnd.uniform(1e300, 1.79e308), None),
+                                  ('ABS(v_x)', '1.5e308', None), ('RADIANS(v_x)', rnd.uniform(1e305, 1.79e308), None)):
+                    g = self.ev(f, v_x=x)
+                    X = mpf(float(x))
+                    refv = {'EXP': m.exp, 'COSH': m.cosh, 'SINH': m.sinh, 'ABS': abs, 'SQRT': m.sqrt, 'RADIANS': m.radians}.get(f.split('(')[0], lambda v: m.mpf(10) ** v)(X)
+                    if abs(refv) < m.mpf('1.79e308'):
+                        self.expect('C16/%s:value:just-below-the-largest-double' % f.split('(')[0], close_mp(g, refv), x=x, got=g, expected=float(refv))
+                        rec.nt(('huge', f, x))
             # two-argument functions
             x, b = self.arg(rnd, 'any'), rnd.choice([2, 10, 0.5, 1, 0, -2, 3, math.e, rnd.uniform(0.01, 20)])
             if b > 0 and b != 1 and rnd.random() < 0.3:
